@@ -12,6 +12,7 @@ use std::task::{Context, Poll};
 mod outputs;
 mod funcs;
 mod refimpl;
+mod xmlre;
 
 type Log = Arc<Mutex<Vec<Value>>>;
 
@@ -330,6 +331,20 @@ fn main() {
             println!("{out}");
         }
         "methods" => println!("{}", json!(S3_METHODS)),
+        "xml" => {
+            // args: <file.json> = [{"ty":..,"xml":..},..]
+            let v: Value = serde_json::from_str(&std::fs::read_to_string(&args[2]).expect("read")).expect("json");
+            std::panic::set_hook(Box::new(|_| {}));
+            let outs: Vec<Value> = v.as_array().unwrap().iter().map(|c| {
+                let ty = c["ty"].as_str().unwrap().to_string();
+                let xml = c["xml"].as_str().unwrap().as_bytes().to_vec();
+                match std::panic::catch_unwind(move || xml_reencode(&ty, &xml)) {
+                    Ok(x) => x,
+                    Err(_) => json!({"panic": true}),
+                }
+            }).collect();
+            println!("{}", Value::Array(outs));
+        }
         _ => std::process::exit(2),
     }
 }
